@@ -11,7 +11,7 @@ RULE = ("for every struct/union of generated schemas compiled with the C++ full 
         "holds whatever earlier (accepted or refused) decodes left in it; through decode(ptr, size) and, for canonical, "
         "extended and truncated inputs, also through the std::vector overload. "
         "Monitors: any sanitizer report; a replaced operator new that refuses and logs requests above "
-        "(64+max sizeof of reachable composite types)*n+4096 bytes during decode; decode==true requires get_byte_size()==n==len(encode<E>()), agreement of the input with its own "
+        "(64+2*max sizeof of reachable composite types)*n+4096 bytes during decode (2x: geometric growth of a vector inside the long-lived object); decode==true requires get_byte_size()==n==len(encode<E>()), agreement of the input with its own "
         "re-encoding on every non-padding byte, and acceptance by the lenient reference decoder. distinct = "
         "(type layout, corruption family, outcome)")
 ASSUMPTIONS = [
